@@ -289,7 +289,78 @@ func c04(tier string, args []string) int {
 	nu := func() interface{} { return &c04user{keys: map[position.Key]string{}} }
 	runTree(run, seeds, depth, nu, c04State)
 	runFamilies(run, fams, nu, c04State)
+	c04Walks(run, tier)
 	return run.Finish()
+}
+
+// c04Walks: long histories (up to the 512-ply capacity): at every ply of the deterministic walks the live position - after
+// a null-move excursion where the side to move is not in check, as a search makes them - has the key, the FEN and the
+// incremental counters of a fresh position built from its own FEN.
+func c04Walks(run *vl.Run, tier string) {
+	specs := walkSpecs[:4]
+	if tier == "thorough" {
+		specs = walkSpecs
+	}
+	vl.Parallel(len(specs), func(i, n int) {
+		ws := specs[i]
+		_, seq := walkMoves(ws)
+		p, err := position.NewPositionFen(ws.fen)
+		if err != nil {
+			return
+		}
+		r := refchess.MustFEN(ws.fen)
+		mgc := movegen.NewMoveGen()
+		clamp := false
+		rep := map[string]interface{}{"kind": "walk", "fen": ws.fen, "rule": fmt.Sprintf("(%d*i+%d) mod n", ws.a, ws.b)}
+		msg, pan := vl.Guard(func() {
+			for k, m := range seq {
+				if run.Expired() {
+					return
+				}
+				if !r.InCheck(r.White) {
+					p.DoNullMove()
+					p.UndoNullMove()
+				}
+				run.AddStates(1)
+				run.Count("walk_plies_checked", 1)
+				fen := p.StringFen()
+				fp, err := position.NewPositionFen(fen)
+				rep["ply"] = k
+				switch {
+				case fen != r.FEN():
+					run.Violate("walk:fen-"+fenDiffField(fen, r.FEN()), fmt.Sprintf("after %d plies (null-move excursions on the way) the FEN is %q, the rules give %q", k, fen, r.FEN()), rep)
+					return
+				case err != nil:
+					run.Violate("walk:own-fen-rejected", err.Error(), rep)
+					return
+				case fp.ZobristKey() != p.ZobristKey():
+					run.Violate("walk:incremental-vs-fresh:zobristkey", fmt.Sprintf("after %d plies the incremental key differs from the key of a fresh position from the same FEN %q", k, fen), rep)
+					return
+				case fp.Material(White) != p.Material(White) || fp.Material(Black) != p.Material(Black) || fp.PsqMidValue(White) != p.PsqMidValue(White) || fp.PsqMidValue(Black) != p.PsqMidValue(Black):
+					run.Violate("walk:incremental-vs-fresh:material-psq", fmt.Sprintf("after %d plies material / piece-square sums differ from a fresh position (%q)", k, fen), rep)
+					return
+				case fp.GamePhase() != p.GamePhase() && !clamp:
+					run.Violate("walk:incremental-vs-fresh:gamephase", fmt.Sprintf("after %d plies the game phase differs from a fresh position (%q)", k, fen), rep)
+					return
+				}
+				em := eng.EngMove(m)
+				if isClampEvent(p, em) {
+					clamp = true
+				}
+				for _, pm := range *mgc.GeneratePseudoLegalMoves(p, movegen.GenAll, false) {
+					if isClampEvent(p, pm) {
+						clamp = true // legal-move generation makes and unmakes every pseudo-legal move
+					}
+				}
+				p.DoMove(em)
+				r = r.Make(m)
+				run.AddTransitions(1)
+			}
+		})
+		if pan {
+			run.Violate("walk-panic", "walk within capacity panicked: "+msg, rep)
+		}
+	})
 }
 
 // noteClamp marks the live position as possibly drifted when any pseudo-legal move here is a clamp
